@@ -105,13 +105,26 @@ Theorem C08_generic_instantiation_witness :
 Proof. exact w_generic_facts. Qed.
 Print Assumptions C08_generic_instantiation_witness.
 
+(* Forward declared functions and overloaded operators (defects of 9b42dd9, repaired by 394dd9c and 3530cc0): with
+   the stale table the caller's local list is freed while it is still in use (replayed on the real compiler by
+   checks/c08.py: double free at -O 2); the repaired annotator analyses the definition at the declaration, which the
+   model expresses by the position of the function in the list.  `C08_elision_sound` covers such programs. *)
+Theorem C08_forward_declaration_witness :
+  run_with true [[true]; [true]; [true]] 50 w_forward = Er EUaf /\
+  run_with false [[true]; [true]; [true]] 50 w_forward = Ok [OSeq [1; 2; 3]]%Z /\
+  analyse (pfuns w_forward) = [[false]; [false]; [true]] /\
+  run_elide 50 w_forward = Ok [OSeq [1; 2; 3]]%Z.
+Proof. exact w_forward_facts. Qed.
+Print Assumptions C08_forward_declaration_witness.
+
 (* elision_sound (FULL, no hypothesis).  For the repaired compiler (91b5d4a) the -O 2 parameter-copy elision never
    changes the behaviour: for every program and every fuel the run with elision equals the run in which every value
    parameter is a fresh copy.  Ingredients (Lower/Opt2Cons.v, Opt2Fbase.v, Opt2Full.v): the table of `analyse` is
    consistent for every program (below); no operation changes the frame base; and the predicate the compiler
    evaluates at each call site (`may_elide`: the argument is a variable of the running activation that is not also
    passed by Referenz in the call) establishes dynamically that no borrowed buffer can be reached by anything the
-   callee may write (lemma callee_Ainv) - the role the static side condition `elide_safe` played before. *)
+   callee may write (lemma callee_Ainv; since the sibling-argument repair the predicate also demands that no other
+   argument of the call mentions the variable) - the role the static side condition `elide_safe` played before. *)
 Theorem C08_elision_sound :
   forall fuel p, run_elide fuel p = run_copy fuel p.
 Proof. exact elision_sound. Qed.
